@@ -73,6 +73,7 @@ type PureFunc struct {
 	Result   string
 	Body     Expr
 	Opaque   bool
+	Uninterpreted bool
 	Src      string
 	Line     int
 }
@@ -104,6 +105,7 @@ type MonitorDecl struct {
 	Type    string
 	Mutex   string
 	Guarded []string
+	Owns    []string // types whose objects are reachable only through this monitor (their fields are guarded by its mutex)
 }
 
 type AxiomDecl struct {
@@ -131,7 +133,7 @@ type PkgContracts struct {
 	NLines   int
 }
 
-var kwRe = regexp.MustCompile(`^(arith|monitor|field|ghost|pure|opaque|invariant|func|extern|trusted|lemma|env|does|requires|ensures|modifies|loop|axiom|property|lockset|global|locked|constructor|noeffect|assume|option|note)\b`)
+var kwRe = regexp.MustCompile(`^(arith|monitor|field|ghost|pure|opaque|invariant|func|extern|trusted|lemma|env|does|requires|ensures|modifies|loop|axiom|property|lockset|global|uf|locked|constructor|noeffect|assume|option|note)\b`)
 
 var nameTagRe = regexp.MustCompile(`^\[([A-Za-z0-9_.\-]+)\]\s*`)
 
@@ -216,6 +218,14 @@ func loadContractsFile(pkgPath, dir, file string) (*PkgContracts, error) {
 			}
 			md := &MonitorDecl{Type: hd[0], Mutex: hd[1]}
 			if len(parts) == 2 {
+				if i := strings.Index(parts[1], "; owns "); i >= 0 {
+					for _, o := range strings.Split(parts[1][i+7:], ",") {
+						if o = strings.TrimSpace(o); o != "" {
+							md.Owns = append(md.Owns, o)
+						}
+					}
+					parts[1] = parts[1][:i]
+				}
 				for _, g := range strings.Split(parts[1], ",") {
 					if g = strings.TrimSpace(g); g != "" {
 						md.Guarded = append(md.Guarded, g)
@@ -459,6 +469,21 @@ func loadContractsFile(pkgPath, dir, file string) (*PkgContracts, error) {
 					pc.Props[id] = append(pc.Props[id], f)
 				}
 			}
+			cur = nil
+		case "uf":
+			// uninterpreted specification function: uf name(a T, b U) R
+			fc, ptypes, rtypes, err := parseHeaderFull(rest)
+			if err != nil {
+				return nil, fail(rc.line, "%v", err)
+			}
+			pf := &PureFunc{Key: fc.Key, Recv: fc.Recv, RecvType: fc.RecvType, Pkg: pkgPath, Line: rc.line, Uninterpreted: true}
+			for k, p := range fc.Params {
+				pf.Params = append(pf.Params, Binder{p, ptypes[k]})
+			}
+			if len(rtypes) > 0 {
+				pf.Result = rtypes[0]
+			}
+			pc.Pures[pf.Key] = pf
 			cur = nil
 		case "lockset":
 			parts := strings.SplitN(rest, ":", 2)
